@@ -362,11 +362,7 @@ def run(run):
             rd = [d for n_ in pn for d in PV.reaching(sa, D, "response", n_)]
             run.check("R2", bool(rd) and all(d.value is chunks[-1] for d in rd), "that answer is the merkle-proof step's", key="sign_authorized|signature-answer",
                       where=sa.loc(r), message="the signature is not taken from the answer that completed the last step")
-    for r in [n for n in A.own_nodes(su) if isinstance(n, ast.Return) and isinstance(n.value, ast.Tuple)
-              and isinstance(n.value.elts[0], ast.Constant) and n.value.elts[0].value is True]:
-        svu = {_strip(x) for rn in gs.nodes_of(r) for x in PV.expand_consistent(su, D, r.value.elts[1], rn, stop=("response",))}
-        run.check("R2", svu == {_strip("HSM2DongleSignature(response[self.OFF.DATA:])")}, "unauthorized signature from the answer's data",
-                  key="sign_unauthorized|signature-source", where=su.loc(r), message=f"unauthorized signing returns `{sorted(svu)[:1]}`")
+    # (the signature sign_unauthorized returns: outcome table in R1)
         okS, SUCC = try_fold(P, ast.parse("self.OP.SIGN.SUCCESS", mode="eval").body, su, D)
         okO, OPI_ = try_fold(P, ast.parse("self.OFF.OP", mode="eval").body, su, D)
         us_send = find_calls(A, su, "_send_command")
